@@ -24,12 +24,40 @@ func Expmod[P emulated.FieldParams](api frontend.API, base, exp, modulus *emulat
 	if err != nil {
 		panic(fmt.Sprintf("new field: %v", err))
 	}
-	// in case modulus is zero or one, then need to compute with dummy values and return zero as a result
-	isZeroMod := f.IsZero(modulus)
-	isOneMod := f.IsZero(f.Sub(modulus, f.One()))
+	// in case modulus is zero or one, then need to compute with dummy values and return zero as a result.
+	//
+	// NB! we compare the integer value of the modulus and not its residue
+	// class in the parametrising ring: the recommended parameters have the
+	// modulus 2^k-1, so that [emulated.Field.IsZero] also answers 1 for the
+	// all-ones value 2^k-1, which is a valid MODEXP modulus.
+	isZeroMod, isOneMod := isIntegerZeroOrOne(api, f, modulus)
 	isOneOrZeroMod := api.Or(isZeroMod, isOneMod)
 	modulus = f.Select(isZeroMod, f.One(), modulus)
 	res := f.ModExp(base, exp, modulus)
 	res = f.Select(isOneOrZeroMod, f.Zero(), res)
 	return res
+}
+
+// isIntegerZeroOrOne returns two booleans indicating if the integer value of a
+// is exactly 0, respectively exactly 1. Differently from [emulated.Field.IsZero]
+// it does not identify the values which are congruent modulo the emulation
+// parameter modulus.
+func isIntegerZeroOrOne[P emulated.FieldParams](api frontend.API, f *emulated.Field[P], a *emulated.Element[P]) (isZero, isOne frontend.Variable) {
+	// ensure that the limbs are width-constrained and have no overflow, so
+	// that the integer value is zero iff all limbs are zero. As the limbs are
+	// at most BitsPerLimb wide, the sum of the limbs cannot overflow the
+	// native field.
+	a = f.Reduce(a)
+	if len(a.Limbs) == 0 {
+		// constant zero
+		return 1, 0
+	}
+	var highSum frontend.Variable = 0
+	for i := 1; i < len(a.Limbs); i++ {
+		highSum = api.Add(highSum, a.Limbs[i])
+	}
+	highIsZero := api.IsZero(highSum)
+	isZero = api.And(highIsZero, api.IsZero(a.Limbs[0]))
+	isOne = api.And(highIsZero, api.IsZero(api.Sub(a.Limbs[0], 1)))
+	return isZero, isOne
 }
